@@ -1446,7 +1446,7 @@ pub mod verif_hooks {
         pub fn try_remove(&mut self, index: u16) -> Option<T> {
             self.0.try_remove(index)
         }
-        pub fn drain(&mut self) -> Vec<T> {
+        pub fn drain(&mut self) -> std::vec::Vec<T> {
             self.0.drain().collect()
         }
         pub fn count(&self) -> usize {
@@ -1455,7 +1455,7 @@ pub mod verif_hooks {
         pub fn curr(&self) -> usize {
             self.0.curr
         }
-        pub fn slots(&self) -> Vec<bool> {
+        pub fn slots(&self) -> std::vec::Vec<bool> {
             self.0.vec.iter().map(Option::is_some).collect()
         }
     }
